@@ -199,7 +199,7 @@ def campaigns(tier):
     th = tier == "thorough"
     return [
         Campaign("produce_sim", "hyp", execute=execute, strategy=lambda: PS.strategy("order"),
-                 examples=40000 if th else 1500, setup=PS.setup, max_wall=900 if th else 100, shrink_wall=40),
+                 examples=40000 if th else 6000, setup=PS.setup, max_wall=900 if th else 100, shrink_wall=40),
         Campaign("sequence_wrap", "hyp", execute=execute, strategy=lambda: PS.strategy("order", wrap=True),
-                 examples=4000 if th else 200, setup=PS.setup, max_wall=300 if th else 40, shrink_wall=30),
+                 examples=4000 if th else 600, setup=PS.setup, max_wall=300 if th else 40, shrink_wall=30),
     ]
